@@ -27,7 +27,8 @@ type jOutcome struct {
 
 type jDiscRun struct {
 	ID       int        `json:"id"`
-	Class    string     `json:"class"` // exact | few | many | byz
+	Class    string     `json:"class"` // exact | teardown | few | many | byz
+	Teardown bool       `json:"teardown"` // every member stops handling messages for the topic once its Synchronize is through
 	Members  []uint16   `json:"members"`
 	Running  []uint16   `json:"running"`
 	Byz      []uint16   `json:"byz"`
@@ -104,7 +105,7 @@ func runDiscWhole(r *prng, id int) *jDiscRun {
 	n := 2 + r.intn(5)
 	members := r.distinctIDs(n, r.chance(1, 4))
 	run := &jDiscRun{ID: id, Members: append([]uint16{}, members...), Fifo: r.chance(2, 3)}
-	class := []string{"exact", "exact", "few", "many", "byz", "byz"}[r.intn(6)]
+	class := []string{"exact", "teardown", "teardown", "few", "many", "byz", "byz"}[r.intn(7)]
 	perm := append([]uint16{}, members...)
 	for i := len(perm) - 1; i > 0; i-- {
 		j := r.intn(i + 1)
@@ -112,11 +113,18 @@ func runDiscWhole(r *prng, id int) *jDiscRun {
 	}
 	timeout := 5 * time.Second
 	switch class {
-	case "exact":
+	case "exact", "teardown":
 		k := 1 + r.intn(n)
+		if class == "teardown" && k < 2 {
+			k = 2
+		}
 		run.Running = perm[:k]
 		run.Expected = k
 		run.Fifo = true
+		run.Teardown = class == "teardown"
+		if run.Teardown {
+			timeout = 2 * time.Second
+		}
 	case "few":
 		k := 1 + r.intn(n)
 		run.Running = perm[:k]
@@ -175,6 +183,7 @@ func runDiscWhole(r *prng, id int) *jDiscRun {
 		ret  bool
 		cbr  bool
 		blk  bool
+		down bool // torn down: the orchestrator no longer hands it messages for the topic
 	}
 	hs := map[uint16]*honest{}
 	for _, x := range run.Running {
@@ -206,6 +215,12 @@ func runDiscWhole(r *prng, id int) *jDiscRun {
 				}
 				if d := rr.intn(8); d > 0 {
 					time.Sleep(time.Duration(d*40) * time.Microsecond)
+				}
+				h.mu.Lock()
+				down := h.down
+				h.mu.Unlock()
+				if down {
+					continue // dropped, as by threshold.Scheme once the synchroniser is unregistered
 				}
 				if len(m.data) >= 33 && (m.data[0] == 1 || m.data[0] == 2) && string(m.data[1:33]) == string(discTag(topic, m.from)) && (len(m.data)-33)%2 == 0 {
 					h.mu.Lock()
@@ -291,9 +306,10 @@ func runDiscWhole(r *prng, id int) *jDiscRun {
 						case "impersonator":
 							o := honestIDs[rr.intn(len(honestIDs))]
 							w.send(x, h, discEncode(byte(1+rr.intn(3)), discTag(topic, o), lists[h]))
-							w.send(x, h, discEncode(1, tag, lists[h]))
+							w.send(x, h, discEncode(byte(1+rr.intn(2)), tag, lists[h]))
 						default:
-							w.send(x, h, discEncode(1, tag, lists[h]))
+							// an announcement, or a query (handled as an announcement too, and counted as a query)
+							w.send(x, h, discEncode(byte(1+rr.intn(2)), tag, lists[h]))
 						}
 					}
 				case <-box.wake:
@@ -347,10 +363,16 @@ func runDiscWhole(r *prng, id int) *jDiscRun {
 				h.cont = append([]uint16{}, l...)
 				h.n++
 				h.cbr = !h.ret
+				if run.Teardown {
+					h.down = true
+				}
 				h.mu.Unlock()
 			}, topic, run.Expected, 2*time.Millisecond)
 			h.mu.Lock()
 			h.ret = true
+			if run.Teardown {
+				h.down = true
+			}
 			h.mu.Unlock()
 			results <- res{h.id, err}
 		}()
@@ -402,7 +424,7 @@ func runDiscWhole(r *prng, id int) *jDiscRun {
 		default:
 			o.ErrText = err.Error()
 			switch {
-			case strings.HasPrefix(o.ErrText, "only ") || strings.HasPrefix(o.ErrText, "haven't received"):
+			case strings.HasPrefix(o.ErrText, "only ") || strings.HasPrefix(o.ErrText, "haven't received") || strings.HasPrefix(o.ErrText, "haven't been queried"):
 				o.Err = "ctx"
 			case strings.HasPrefix(o.ErrText, "too many members"):
 				o.Err = "toomany"
